@@ -24,13 +24,14 @@ namespace cs
         p.set("place", (long long)r.below(PLACE_COUNT));
         std::size_t len = thorough ? r.range(20, 200) : r.range(6, 60);
 
-        if (profile == "C09" || profile == "C08" || profile == "C03W")
+        if (profile == "C09" || profile == "C08" || profile == "C03W" || profile == "C12W")
         {
             p.set("mode", "wrap");
             std::vector<std::string> names;
             for (auto& kv : comp_registry())
                 if ((profile != "C08" || kv.first.find("fallback") != std::string::npos)
-                    && (profile != "C03W" || kv.first.find("pmr") == std::string::npos)) // (C03W: K01 lives in pmr)
+                    && ((profile != "C03W" && profile != "C12W")
+                        || kv.first.find("pmr") == std::string::npos)) // (C03W, C12W: K01 lives in pmr)
                     names.push_back(kv.first);
             auto comp = names[r.below(names.size())];
             p.set("comp", comp);
@@ -59,7 +60,7 @@ namespace cs
                 if (r.chance(1, 10))
                     target = r.range(0, 16);
                 bool grow = live < target ? r.chance(3, 4) : r.chance(1, 4);
-                if (r.chance(1, 30))
+                if (r.chance(1, profile == "C12W" ? 6 : 30))
                     p.add("mvw", {(long long)r.below(7), (long long)r.below(300), (long long)r.below(100)});
                 else if (r.chance(1, 25))
                     p.add("mx", {});
@@ -213,6 +214,7 @@ namespace cs
             p.set("cont", names[r.below(names.size())]);
             p.set("end", (long long)r.below(4));
             p.set("pmr_max_node", (long long)r.pick<long long>({16, 24, 64, 100, 4096}));
+            p.set("fb_budget", (long long)r.pick<long long>({0, 64, 256, 1024, 4096}));
             unsigned fault_pct = r.chance(1, 3) ? r.pick<unsigned>({3, 10}) : 0;
             static const char* kinds[] = {"ins", "ins", "ins", "ins", "era", "era", "clr", "cpa", "mva",
                                           "swp", "cpc", "mvc", "cpx", "spl", "spl", "rsv"};
